@@ -40,7 +40,32 @@ type c14Leafs struct {
 	V int            `config:"v" validate:"max=10"`
 	W c14W           `config:"w"`
 	N uint64         `config:"n" validate:"required"`
+	X c14Unp         `config:"x"`
+	Y c14SU          `config:"y"`
 }
+
+// c14Unp unpacks its setting with the library itself: the error of the nested Unpack is a ucfg.Error with a
+// path relative to the nested config.
+type c14Unp struct{ Port int }
+
+func (u *c14Unp) Unpack(v interface{}) error {
+	c, err := ucfg.NewFrom(v)
+	if err != nil {
+		return err
+	}
+	var t struct {
+		Port int `config:"port"`
+	}
+	if err := c.Unpack(&t); err != nil {
+		return err
+	}
+	u.Port = t.Port
+	return nil
+}
+
+type c14SU struct{ S string }
+
+func (u *c14SU) Unpack(s string) error { u.S = s; return nil }
 
 type c14T struct {
 	Top c14Leafs            `config:"top"`
@@ -52,7 +77,7 @@ type c14T struct {
 }
 
 func c14GoodLeafs() M {
-	return M{"i": 1, "u": 2, "f": 1.5, "b": true, "s": "str", "d": "3s", "r": "a+", "a": L{1, 2}, "v": 3, "w": 4, "n": 9}
+	return M{"i": 1, "u": 2, "f": 1.5, "b": true, "s": "str", "d": "3s", "r": "a+", "a": L{1, 2}, "v": 3, "w": 4, "n": 9, "x": M{"port": 1}, "y": "text"}
 }
 
 var c14Locs = []string{"", "top.", "ptr.", "lst.0.", "lst.1.", "mp.k.", "pl.0."}
@@ -92,6 +117,9 @@ var c14Faults = []c14Fault{
 	{"s", "unresolvable reference", "${does.not.exist}", true, nil, ""},
 	{"i", "unresolvable reference in a splice", "1${nope}", true, nil, ""},
 	{"s", "cyclic reference", "SELF", true, nil, ""},
+	{"x", "error of a nested Unpack returned by an Unpacker", M{"port": "http"}, false, nil, ""},
+	{"y", "cyclic reference read by a StringUnpacker", "SELF", true, nil, ""},
+	{"y", "unresolvable reference read by a StringUnpacker", "${does.not.exist}", true, nil, ""},
 	{"a", "broken second link of a reference chain read into an array", "${zchain}", true, M{"zchain": "${does.not.exist}"}, "zchain"},
 	{"a", "broken third link of a reference chain read into an array", "${zchain}", true, M{"zchain": "${zlink}", "zlink": "${does.not.exist}"}, "zlink"},
 }
@@ -573,6 +601,6 @@ func init() {
 			"errors of third-party decoders and of package parse (plain errors by design) are outside the clause",
 			"the path is matched as a quoted dotted path in the first line of the message (critical errors append a stack trace)",
 		},
-		Spaces: func(tier string) []*core.Space { return []*core.Space{c14Sweep(), c14Space(), c14AbsentSpace(), c14GenericSpace()} },
+		Spaces: func(tier string) []*core.Space { return []*core.Space{c14Sweep(), c14Space(), c14AbsentSpace(), c14GenericSpace(), c14ListRoots()} },
 	})
 }
